@@ -122,7 +122,8 @@ class AddEnclosingMiddleware(BlockMiddleware):
         enclosing = self._default_enclosing
         if self._reuse_previous_enclosing and metadata_enclosing is not None:
             enclosing = metadata_enclosing
-        elif apply_int_rule and not self._enclose_integers and value.isdigit():
+        elif apply_int_rule and not self._enclose_integers and str(value).isdigit():
+            # (the value may be an int, e.g. after the MonthIntMiddleware)
             return value
 
         if enclosing == "{":
